@@ -126,7 +126,8 @@ fn marker_names(n: usize) -> Vec<String> {
 fn no_plaintext(p: &Program, cfg: &Cfg, rep: &mut Report) {
     infra::watch_case(json!({"program": p.short(), "cfg": cfg.json()}));
     let Ok(Ok((a, _))) = guard(|| prog::build(p, cfg)) else {
-        rep.count("not_built(see C01)", 1);
+        rep.evaluations += 1;
+        rep.violate(Violation { sig: json!({"kind": "subject_archive_cannot_be_built"}), detail: format!("{} / {:?}: a valid writer program gives no archive; an explorer that drops such inputs would pass vacuously", p.short(), cfg.json()), replay: json!({"program": p.json(), "cfg": cfg.json()}), weight: 0 });
         return;
     };
     rep.evaluations += 1;
